@@ -98,6 +98,35 @@ def _only_called_as_value(ctx, f) -> bool:
     return cache[f.qname]
 
 
+def _uncalled_private(ctx, f) -> bool:
+    """a private helper (its own or its class's name starts with '_') that nothing in the normalised program calls any
+    more: every call site was un-extracted (E0b), so its statements were judged where they run - in the callers,
+    together with the guards that surround the call there."""
+    private = f.name.startswith('_') and not f.name.startswith('__') or (f.cls is not None and f.cls.name.startswith('_'))
+    if not private:
+        return False
+    callers = getattr(ctx, '_callers_map', None)
+    if callers is None:
+        callers = {}
+        for g in ctx.prog.all_funcs():
+            try:
+                for h in ctx.an.callees(g):
+                    if h is not g:
+                        callers.setdefault(h.qname, set()).add(g.qname)
+            except Exception:
+                pass
+        ctx._callers_map = callers
+    if callers.get(f.qname):
+        return False
+    # it must have been called somewhere in the source as written (otherwise it is an entry point of its own)
+    name = f.name
+    for m in ctx.prog.modules.values() if hasattr(ctx.prog, 'modules') else []:
+        src = getattr(m, 'source', None)
+        if src and ('.' + name + '(' in src or ' ' + name + '(' in src):
+            return True
+    return False
+
+
 def _opacity_downgrade(ctx, rn, insts):
     if rn not in ABSENCE_RULES:
         return
@@ -106,6 +135,11 @@ def _opacity_downgrade(ctx, rn, insts):
             continue
         top = i.func
         if not ctx.prog.has_func(top):
+            continue
+        if _uncalled_private(ctx, ctx.prog.func(top)):
+            i.verdict = 'info'
+            i.msg = (f"[{top} is a private helper whose every call was un-extracted into its callers; its statements "
+                     f"are judged there, with the guards around the call] " + i.msg)
             continue
         if _only_called_as_value(ctx, ctx.prog.func(top)):
             i.verdict = 'unproven'
